@@ -641,7 +641,122 @@ example :
       = [.ok, .ok, .ok, .dest 2, .panic] := by
   decide
 
+/-! ## guard drops are atomic w.r.t. the registry: concurrent readers do not matter -/
+
+/-- Operations that only read the routing state (and deliver): what other threads hammer the global with. -/
+def Op.isReader : Op → Bool
+  | .append _ | .tryAppend _ | .sink _ | .trySink _ | .isAttached | .useHeld _ _ => true
+  | _ => false
+
+def eraseLog (st : State) : State := { st with log := [] }
+
+theorem step_eraseLog (st : State) (c : Ctx) (op : Op) :
+    eraseLog (step (eraseLog st) c op).1 = eraseLog (step st c op).1 ∧
+    (step (eraseLog st) c op).2 = (step st c op).2 := by
+  cases op <;> simp only [step, setRuntime, eraseLog, route, testSink, deliver] <;>
+    (try split) <;> (try split) <;> (try split) <;> simp_all
+
+theorem reader_neutral (st : State) (c : Ctx) (op : Op) (h : op.isReader = true) :
+    eraseLog (step st c op).1 = eraseLog st := by
+  cases op <;> simp [Op.isReader] at h <;> simp only [step, eraseLog, deliver] <;> (try split) <;> simp_all
+
+/-- The results of the operations of a script that are not readers, in order. -/
+def writerResults : List (Ctx × Op) → List Res → List Res
+  | (_, op) :: rest, r :: rs => if op.isReader then writerResults rest rs else r :: writerResults rest rs
+  | _, _ => []
+
+theorem run_eraseLog (st : State) (script : List (Ctx × Op)) :
+    eraseLog (run (eraseLog st) script).1 = eraseLog (run st script).1 ∧
+    (run (eraseLog st) script).2 = (run st script).2 := by
+  induction script generalizing st with
+  | nil => simp [run, eraseLog]
+  | cons x rest ih =>
+    obtain ⟨c, op⟩ := x
+    obtain ⟨h1, h2⟩ := step_eraseLog st c op
+    have a := ih (step (eraseLog st) c op).1
+    have b := ih (step st c op).1
+    simp only [run]
+    rw [h1] at a
+    refine ⟨a.1.symm.trans (by rw [b.1]) |>.symm ▸ ?_, ?_⟩
+    · exact a.1.symm.trans b.1 |>.symm ▸ rfl
+    · rw [h2, ← a.2, b.2]
+
+theorem run_cons (st : State) (c : Ctx) (op : Op) (rest : List (Ctx × Op)) :
+    run st ((c, op) :: rest) =
+      ((run (step st c op).1 rest).1, (step st c op).2 :: (run (step st c op).1 rest).2) := rfl
+
+/-- **C17 readers are neutral (guard drops are atomic w.r.t. the registry).** Interleave any number
+of routed reads / appends of any threads anywhere into a script: every install, drop, attach, detach
+of the script answers exactly what it answers without them, and the final routing state (everything
+but the delivery log) is the same. In particular a guard drop removes its sink no matter what other
+threads are doing with the global at that instant: the model has no "busy" outcome. -/
+theorem c17_readers_neutral (st : State) (script : List (Ctx × Op)) :
+    eraseLog (run st script).1 = eraseLog (run st (script.filter fun x => !x.2.isReader)).1 ∧
+    writerResults script (run st script).2 = (run st (script.filter fun x => !x.2.isReader)).2 := by
+  induction script generalizing st with
+  | nil => simp [run, writerResults]
+  | cons x rest ih =>
+    obtain ⟨c, op⟩ := x
+    cases hr : op.isReader with
+    | true =>
+      simp only [List.filter_cons, hr, Bool.not_true, run, writerResults]
+      have hn := reader_neutral st c op hr
+      have e1 := run_eraseLog (step st c op).1 rest
+      have e2 := run_eraseLog st rest
+      have i1 := ih (step st c op).1
+      have i2 := ih st
+      rw [hn] at e1
+      constructor
+      · rw [← e1.1, e2.1]; exact i2.1
+      · simp only [Bool.false_eq_true, ↓reduceIte]
+        rw [← e1.2, e2.2]; exact i2.2
+    | false =>
+      simp only [List.filter_cons, hr, Bool.not_false, run, writerResults]
+      have i1 := ih (step st c op).1
+      simp only [if_true, Bool.false_eq_true, if_false, run_cons]
+      exact ⟨i1.1, by rw [i1.2]⟩
+
+/-- **C17 a guard drop is effective.** Dropping the guard of runtime `k` (it answers `ok`) always
+clears the entry: a re-install for `k` succeeds and routing of a context inside `k` without
+thread-local sink falls through to the attached sink. -/
+theorem c17_drop_rt_effective (st : State) (c c' c'' : Ctx) (k s s' : Nat) (h : st.rt k = some s) :
+    (step st c (.dropRT k)).2 = .ok ∧
+    (step (step st c (.dropRT k)).1 c' (.setRT k s')).2 = .ok ∧
+    (c''.runtime = some k → st.tl c''.thread = none →
+      route (step st c (.dropRT k)).1 c'' = st.attached) := by
+  refine ⟨by simp [step, h], by simp [step, h, setRuntime, upd], ?_⟩
+  intro hr ht
+  simp [step, h, route, testSink, ht, hr, upd]
+
+/-- A variant that is *not* the code: the guard drop skips the removal when the registry is busy
+(`try_lock`), yet the guard is gone. -/
+def stepSkip (st : State) (c : Ctx) (op : Op) (busy : Bool) : State × Res :=
+  match op, busy with
+  | .dropRT k, true => (st, if (st.rt k).isSome then .ok else .noop)
+  | _, _ => step st c op
+
+def runSkip (st : State) : List (Ctx × Op × Bool) → State × List Res
+  | [] => (st, [])
+  | (c, op, busy) :: rest =>
+    let (st1, r) := stepSkip st c op busy
+    let (st2, rs) := runSkip st1 rest
+    (st2, r :: rs)
+
+/-- **Witness: skip-on-contention violates C17.** With the registry busy at the drop, the dropped
+test sink keeps receiving the runtime's entries and the re-install panics — against
+`c17_drop_rt_effective` (and `c17_drop_next`); without contention the variant is the model. -/
+example :
+    (runSkip (State.init none)
+      [(⟨0, none⟩, .setRT 0 5, false), (⟨0, none⟩, .dropRT 0, true),
+       (⟨1, some 0⟩, .tryAppend 7, false), (⟨0, none⟩, .setRT 0 6, false)]).2
+      = [.ok, .ok, .dest 5, .panic] ∧
+    (run (State.init none)
+      [(⟨0, none⟩, .setRT 0 5), (⟨0, none⟩, .dropRT 0), (⟨1, some 0⟩, .tryAppend 7), (⟨0, none⟩, .setRT 0 6)]).2
+      = [.ok, .ok, .returned 7, .ok] := by
+  decide
+
 /-! ## non-vacuity -/
+
 
 
 /-- A populated state: sink 1 attached (handle live), thread 2 has test sink 7, runtime 0 has test
@@ -701,3 +816,5 @@ end Global
 #print axioms Global.c17_detach_attach_linearizable
 #print axioms Global.c17_slow_drop_irrelevant
 #print axioms Global.c17_returned_then_attach_ok
+#print axioms Global.c17_readers_neutral
+#print axioms Global.c17_drop_rt_effective
